@@ -29,6 +29,25 @@ func RunC13(tier string) int {
 		pf.NoCache = true
 		pf.MinTargets, pf.MaxTargets = 4, 9
 		s := spec.Gen(r, pf)
+		// no-cache targets whose only output is a bin output, with cacheable dependants: the
+		// output hash of a forced target has to cover the bin output as well
+		for k, t := range s.Targets {
+			if len(s.Dependants(t.Label())) == 0 {
+				continue
+			}
+			if (t.HasTag("no-cache") && r.Chance(1, 2)) || (k == 0 && r.Chance(1, 3)) {
+				if !t.HasTag("no-cache") {
+					t.Tags = append(t.Tags, "no-cache")
+				}
+				t.Outs = nil
+				t.Bin = fmt.Sprintf("t%d.bin", k)
+				for _, u := range s.Targets {
+					if s.Dependants(t.Label())[u.Label()] && u.HasTag("no-cache") && r.Chance(1, 2) {
+						u.Tags = nil
+					}
+				}
+			}
+		}
 		for _, t := range s.Targets {
 			if r.Chance(1, 3) && !t.HasTag("no-cache") {
 				t.FailIf = "markers/fail_" + t.Name
